@@ -302,7 +302,7 @@ fn c05_roundtrip_raw() {
     core::mem::forget(d2);
 }
 
-//@ c05_roundtrip_dual {"tier":"thorough","desc":"write -> read of a dual-connector dictionary with user lexicon: class matrix, class maps, raw rows and raw scorer identical","bounds":"2x2 ids, 2x2 class matrix, 1 block per id, scorer 2 bases / 3 cells","symbolic":"matrix cells, class maps, feature ids, scorer arrays, parameters","functions":["Dictionary::write","Dictionary::read","DualConnector codec","Scorer codec","U31x8 codec"],"fs":5000,"unwind":24,"unwindset":["memcmp:24","ElemWriter:200"],"timeout":3600,"mem_gb":24,"stubs":["alloc::fmt::format","unty::type_equal"]}
+//@ c05_roundtrip_dual {"tier":"thorough","core":false,"desc":"write -> read of a dual-connector dictionary with user lexicon: class matrix, class maps, raw rows and raw scorer identical","bounds":"2x2 ids, 2x2 class matrix, 1 block per id, scorer 2 bases / 3 cells","symbolic":"matrix cells, class maps, feature ids, scorer arrays, parameters","functions":["Dictionary::write","Dictionary::read","DualConnector codec","Scorer codec","U31x8 codec"],"fs":5000,"unwind":24,"unwindset":["memcmp:24","ElemWriter:200"],"timeout":3600,"mem_gb":24,"stubs":["alloc::fmt::format","unty::type_equal"]}
 #[cfg(kani)]
 #[kani::proof]
 #[kani::stub(alloc::fmt::format, crate::c06::stub_format)]
